@@ -183,6 +183,9 @@ func c02Feature(c *ctx) *geojson.Feature {
 		}
 	case 1:
 		f.ID = float64(c.rng.Intn(100000))
+		if c.rng.Intn(6) == 0 { // whole numbers at and beyond the edges of the integer types
+			f.ID = []float64{1 << 53, 1<<53 + 2, 1 << 62, 1 << 63, -(1 << 63), 1 << 64, 1<<63 + 2048, 4294967296}[c.rng.Intn(8)]
+		}
 	case 2:
 		f.ID = c.rng.Intn(100000)
 	}
@@ -248,6 +251,8 @@ func (stdJSON) Unmarshal(data []byte, v interface{}) error { return json.Unmarsh
 
 // long-lived helper receivers (one per kind and encoding) with what they returned last time
 var c02Held = *geojson.NewGeometry(orb.Point{0, 0})
+var c02Mix = &geojson.Geometry{}
+var c02MixN int
 
 var (
 	c02HP, c02HPb   geojson.Point
@@ -390,6 +395,21 @@ func init() {
 						return
 					}
 					e["reb"], _ = encGeom(reGb.Geometry(), in.fn())
+					// one long-lived value that takes JSON and BSON documents in turn (this order in one event, the other in the
+					// next): what it holds after each decode is that document's geometry
+					c02MixN++
+					for step := 0; step < 2; step++ {
+						var err error
+						if (step+c02MixN)%2 == 0 {
+							err = json.Unmarshal(data, c02Mix)
+						} else {
+							err = bson.Unmarshal(bdata, c02Mix)
+						}
+						if err != nil || geomBits(c02Mix.Geometry()) != geomBits(dg.Geometry()) {
+							e["err"] = fmt.Sprintf("value reused across JSON and BSON decodes (step %d): %v", step, err)
+							return
+						}
+					}
 					// the typed helpers (geojson.Point, LineString, ...) as long-lived receivers: each decodes this document into
 					// the receiver that took the previous documents of its kind, returns the same value, and leaves alone what
 					// it returned before (results kept by the caller do not live in the receiver's memory)
@@ -524,7 +544,7 @@ func init() {
 				if c.rng.Intn(2) == 0 {
 					fc.ExtraMembers = map[string]interface{}{}
 					for j := 0; j < 1+c.rng.Intn(2); j++ {
-						fc.ExtraMembers[[]string{"title", "Type", "crs", "Features", "x"}[c.rng.Intn(5)]] = c02Value(c, 1)
+						fc.ExtraMembers[[]string{"title", "Type", "crs", "Features", "x", "v1.2", "v1\uff0e2", "a$b", "\u4fa1\u683c\uff04", "\uff04"}[c.rng.Intn(10)]] = c02Value(c, 1)
 					}
 				}
 				model := func(x *geojson.FeatureCollection) jdoc {
